@@ -1,4 +1,5 @@
 """C09 - pestle integrates every point of the domain exactly once."""
+import json
 import io
 import random
 import re
@@ -59,7 +60,35 @@ def lvls_sx(pf):
     return out
 
 
-def run_case(seed):
+def many_boxes_plotfile(rng):
+    """two levels; the refined level holds 300 of the 320 possible boxes of 2 x 2 x 2 cells (more boxes than a byte counts)"""
+    pf = gen.PF()
+    pf.ndims, pf.bf = 3, 2
+    pf.fields = ['temp', 'volFrac']
+    pf.time, pf.step = 0.25, 7
+    pf.geo_low, pf.dx0, pf.n0 = [0.0, 0.0, 0.0], [0.5, 0.25, 1.0], [10, 8, 4]
+    l0 = gen.Level()
+    l0.boxes = [((0, 0, 0), (3, 7, 3)), ((4, 0, 0), (9, 7, 3))]          # (corners on an even blocking factor, as the property requires)
+    l1 = gen.Level()
+    cand = [((2 * i, 2 * j, 2 * k), (2 * i + 1, 2 * j + 1, 2 * k + 1)) for i in range(10) for j in range(8) for k in range(4)]
+    rng.shuffle(cand)
+    l1.boxes = cand[:300]
+    layouts = []
+    for lev in (l0, l1):
+        lev.data = [gen.gen_payload(rng, tuple(h - l + 1 for l, h in zip(lo, hi)) + (2,), 'smallints') for lo, hi in lev.boxes]
+        lev.files, lk = gen.gen_layout(rng, len(lev.boxes), rng.choice(['random', 'reversed']))
+        layouts.append(lk)
+    pf.levels = [l0, l1]
+    pf.meta = dict(ndims=3, nlevels=2, bf=2, nfields=2, payload='smallints', geo='exact/aniso', layouts=layouts,
+                   nboxes=[2, 300], nfiles=[len(l0.files), len(l1.files)], n0=pf.n0, case='300 boxes on the refined level')
+    return pf
+
+
+def many_boxes_case(seed):
+    return run_case(seed, many=True)
+
+
+def run_case(seed, many=False):
     from amr_kitchen import PlotfileCooker
     from amr_kitchen.pestle.pestle import volume_integral
     rng = random.Random(seed)
@@ -77,6 +106,8 @@ def run_case(seed):
         nlv, bf, mesh = 2, 8, 'chunky'
     pf = gen.gen_plotfile(rng, ndims=3, payload='smallints', max_blocks=2, nfields=(1, 4),
                           nlevels=nlv, geo_stream=geo_stream, bf=bf, mesh=mesh)
+    if many:
+        pf = many_boxes_plotfile(rng)
     if rng.random() < 0.6 and 'volFrac' not in pf.fields:
         pf.fields[rng.randrange(len(pf.fields))] = 'volFrac'
     keys = c01.reader_keys(pf.fields)
@@ -192,6 +223,8 @@ def run(tier, seed):
     cases = [seed * 100000 + 9000 + i for i in range(ncases)]
     for r in core.run_cases(run_case, core.with_corpus(PID, cases)):
         rep.merge(r)
+    for r in core.run_cases(many_boxes_case, [seed * 100000 + 9900 + i for i in range(1 if tier == 'quick' else 6)]):
+        rep.merge(r)
     rep.obligation('correspondence: Pestle.Pestle.volume_integral (per level, per box exact sums) = per-box worker results and total of '
                    'pestle.volume_integral', not any(v[0].get('kind') == 'model-vs-impl' for v in rep.violations))
     return rep.finish(
@@ -208,7 +241,7 @@ def run(tier, seed):
 
 def replay(doc):
     core.worker_init(core.REPO, quiet=False)
-    r = run_case(doc['seed'])
+    r = run_case(doc['seed'], many=('300 boxes' in json.dumps(doc)))
     bad = r['violations'] + r['disagreements']
     for v in bad:
         print('REPLAY:', v.get('what'))
